@@ -1,7 +1,287 @@
+(* Proofs about model/Http1Req.v (C24). *)
 From Coq Require Import List ZArith Bool Lia.
 From Bfe Require Import lib.Val lib.Bytes model.Http1Req run.RunC24.
 Import ListNotations.
 Open Scope Z_scope.
 
-Lemma placeholder_c24 : kf_C24 (VZ 0) = 0.
-Proof. reflexivity. Qed.
+(* ---------- generic skeleton refinement ---------- *)
+(* If validator set V1 refines V2 on every request head (whatever V1 accepts, V2 accepts with the same
+   result) then every request V1 accepts on a stream is accepted by V2 at the same place with the same
+   content; V2 may go on where V1 stopped. *)
+Lemma skeleton_refinement_gen :
+  forall V1 V2 : validators,
+    (forall hd m, validate V1 hd = inr m -> validate V2 hd = inr m) ->
+    forall fuel s qs e, parse_stream V1 fuel s = (qs, e) ->
+      exists qs' e', parse_stream V2 fuel s = (qs ++ qs', e').
+Proof.
+  intros V1 V2 Href fuel. induction fuel as [|f IH]; intros s qs e H; simpl in *.
+  - inversion H; subst. exists [], 99. reflexivity.
+  - destruct (read_head s) as [hd|] eqn:Eh.
+    + destruct (validate V1 hd) as [c|m] eqn:Ev.
+      * inversion H; subst. simpl. destruct (validate V2 hd) as [c2|m2].
+        -- eexists; eexists; reflexivity.
+        -- destruct (read_body (r_framing m2) (h_rest hd)) as [[b rest]|].
+           ++ destruct (parse_stream V2 f rest) as [qs2 e2]. eexists; eexists; reflexivity.
+           ++ eexists; eexists; reflexivity.
+      * rewrite (Href _ _ Ev).
+        destruct (read_body (r_framing m) (h_rest hd)) as [[b rest]|].
+        -- destruct (parse_stream V1 f rest) as [qs1 e1] eqn:E1. inversion H; subst.
+           destruct (IH _ _ _ E1) as [qs' [e' E2]]. rewrite E2. exists qs', e'. reflexivity.
+        -- inversion H; subst. exists [], 20. reflexivity.
+    + inversion H; subst. exists [], 0. reflexivity.
+Qed.
+
+(* ---------- small facts ---------- *)
+Lemma bytes_eqb_refl a : bytes_eqb a a = true.
+Proof. apply bytes_eqb_eq. reflexivity. Qed.
+Lemma fields_eqb_refl a : fields_eqb a a = true.
+Proof. induction a as [|[k v] a IH]; simpl; [reflexivity|]. rewrite !bytes_eqb_refl, IH. reflexivity. Qed.
+
+Lemma has_key_get_all k h : has_key k h = false -> get_all k h = [].
+Proof.
+  unfold has_key, get_all. induction h as [|kv h IH]; simpl; [reflexivity|].
+  destruct (key_is k kv); simpl; [discriminate|exact IH].
+Qed.
+Lemma get_all_has_key k h : has_key k h = true -> get_all k h <> [].
+Proof.
+  unfold has_key, get_all. induction h as [|kv h IH]; simpl; [discriminate|].
+  destruct (key_is k kv); simpl; [discriminate|exact IH].
+Qed.
+
+Lemma canon_go_nonempty u c r : canon_go u (c :: r) <> [].
+Proof. simpl. discriminate. Qed.
+Lemma token_canon_nonempty k : is_token k = true -> canon_key k <> [].
+Proof.
+  destruct k as [|c r]; [discriminate|]. intros _. unfold canon_key.
+  destruct (forallb is_tchar (c :: r)); [apply canon_go_nonempty|discriminate].
+Qed.
+
+(* ---------- header lines: BFE's reader and the RFC reader agree on lines whose name is a token ---------- *)
+Lemma field_refine l : nontoken_key l = false -> bfe_field l = ref_field l.
+Proof.
+  unfold nontoken_key, bfe_field, ref_field. destruct (line_key l) as [k|]; [|reflexivity].
+  intro H. apply negb_false_iff in H. rewrite H.
+  pose proof (token_canon_nonempty _ H) as Hne. destruct (canon_key k); [congruence|reflexivity].
+Qed.
+Lemma collect_refine ls : existsb nontoken_key ls = false ->
+  collect_fields bfe_field ls = collect_fields ref_field ls.
+Proof.
+  induction ls as [|l ls IH]; simpl; [reflexivity|]. intro H. apply orb_false_iff in H. destruct H as [H1 H2].
+  rewrite (field_refine _ H1), (IH H2). reflexivity.
+Qed.
+
+(* ---------- framing decision ---------- *)
+Lemma te_single_chunked h :
+  has_key s_te h = true ->
+  (match te_tokens h with [t] => bytes_eqb t s_chunked | _ => false end) = true ->
+  bfe_te h = Some true.
+Proof.
+  intros Hk Ht. unfold bfe_te. unfold te_tokens in Ht.
+  pose proof (get_all_has_key _ _ Hk) as Hne.
+  destruct (get_all s_te h) as [|raw0 rest]; [congruence|].
+  simpl in Ht. pose proof (split_byte_nonempty 44 raw0) as Hs.
+  destruct (split_byte 44 raw0) as [|a l]; [congruence|].
+  simpl in Ht.
+  destruct (map (fun e => to_lower (go_trim e)) (l ++ concat (map (split_byte 44) rest))) eqn:Em; [|discriminate].
+  destruct l as [|b l]; [|simpl in Em; discriminate].
+  simpl. apply bytes_eqb_eq in Ht. rewrite Ht. reflexivity.
+Qed.
+
+Lemma parse_cl_dec cl n : parse_cl cl = Some n -> parse_dec cl = Some n.
+Proof. unfold parse_cl. destruct (parse_dec cl); [|discriminate]. destruct (z <? 2^63); congruence. Qed.
+
+Lemma frame_refine h fr :
+  bfe_frame h = inr fr -> te_div h = false -> (negb (has_key s_te h) && empty_cl h) = false ->
+  ref_frame h = inr fr.
+Proof.
+  unfold bfe_frame, ref_frame, te_div, empty_cl. intros Hb Hd He.
+  destruct (has_key s_te h) eqn:Hk.
+  - (* Transfer-Encoding present *)
+    destruct (bfe_te h) as [c|] eqn:Et; [|discriminate].
+    simpl in Hd. rewrite andb_true_r in Hd. apply negb_false_iff in Hd.
+    rewrite (te_single_chunked _ Hk Hd) in Et. inversion Et; subst c.
+    destruct (bfe_trailer_ok h); [|discriminate]. inversion Hb; subst.
+    destruct (te_tokens h) as [|t [|t2 l]]; try discriminate. rewrite Hd. reflexivity.
+  - unfold bfe_te in Hb. rewrite (has_key_get_all _ _ Hk) in Hb. simpl in He.
+    destruct (get_all s_cl h) as [|f r] eqn:Ecl.
+    + simpl in Hb. destruct (bfe_trailer_ok h); [|discriminate]. exact Hb.
+    + assert (Hh : has_key s_cl h = true).
+      { destruct (has_key s_cl h) eqn:E; [reflexivity|]. rewrite (has_key_get_all _ _ E) in Ecl. discriminate. }
+      rewrite Hh in He. cbn [negb andb] in He.
+      destruct (cl_consistent (f :: r)); [|discriminate].
+      destruct (cl_first (f :: r)) as [|c0 cl] eqn:Ef; [discriminate|].
+      destruct (parse_cl (c0 :: cl)) as [n|] eqn:Ep; [|discriminate].
+      rewrite (parse_cl_dec _ _ Ep).
+      destruct (bfe_trailer_ok h); [|discriminate]. exact Hb.
+Qed.
+
+(* ---------- one request head ---------- *)
+Lemma head_refine hd m : head_class hd = 0 -> validate V_bfe hd = inr m -> validate V_ref hd = inr m.
+Proof.
+  unfold head_class, validate. simpl.
+  destruct (parse_request_line (h_reqline hd)) as [[[me t] p]|]; [|discriminate].
+  destruct (negb (is_token me) || (bfe_version_ok p && negb (ref_version_ok p))) eqn:E5; [discriminate|].
+  apply orb_false_iff in E5. destruct E5 as [Em Ev]. apply negb_false_iff in Em. rewrite Em. simpl.
+  destruct (bfe_version_ok p) eqn:Ebv; simpl; [|discriminate].
+  simpl in Ev. apply negb_false_iff in Ev. rewrite Ev. simpl.
+  destruct (h_leadws hd) eqn:El; [discriminate|].
+  destruct (existsb ws_before_colon (h_lines hd)); [discriminate|].
+  destruct (existsb nontoken_key (h_lines hd)) eqn:En; [discriminate|].
+  rewrite <- (collect_refine _ En).
+  destruct (target_class me t =? 0); [intros _ H; exact H|].
+  destruct (target_class me t =? 3); [intros _ H; exact H|].
+  destruct (collect_fields bfe_field (h_lines hd)) as [fs|]; [|intros _ H; exact H].
+  destruct (te_div fs) eqn:Ed; [discriminate|].
+  destruct (negb (has_key s_te fs) && empty_cl fs) eqn:Ee; [discriminate|].
+  intros _ H.
+  destruct (h_complete hd); simpl in *; [|exact H].
+  destruct (bfe_frame fs) as [c|fr] eqn:Ef; [discriminate|].
+  rewrite (frame_refine _ _ Ef Ed Ee). exact H.
+Qed.
+
+(* ---------- the stream ---------- *)
+Lemma stream_refine fuel : forall s qs e,
+  stream_class fuel s = 0 -> parse_stream V_bfe fuel s = (qs, e) ->
+  exists qs' e', parse_stream V_ref fuel s = (qs ++ qs', e').
+Proof.
+  induction fuel as [|f IH]; intros s qs e Hc H; simpl in *.
+  - inversion H; subst. exists [], 99. reflexivity.
+  - destruct (read_head s) as [hd|] eqn:Eh.
+    + destruct (head_class hd =? 0) eqn:Ec; simpl in Hc; [|exfalso; apply Z.eqb_neq in Ec; congruence].
+      apply Z.eqb_eq in Ec.
+      destruct (validate V_bfe hd) as [c|m] eqn:Ev.
+      * inversion H; subst. simpl. destruct (validate V_ref hd) as [c2|m2].
+        -- eexists; eexists; reflexivity.
+        -- destruct (read_body (r_framing m2) (h_rest hd)) as [[b rest]|].
+           ++ destruct (parse_stream V_ref f rest) as [qs2 e2]. eexists; eexists; reflexivity.
+           ++ eexists; eexists; reflexivity.
+      * rewrite (head_refine _ _ Ec Ev).
+        destruct (read_body (r_framing m) (h_rest hd)) as [[b rest]|].
+        -- destruct (parse_stream V_bfe f rest) as [qs1 e1] eqn:E1. inversion H; subst.
+           destruct (IH _ _ _ Hc E1) as [qs' [e' E2]]. rewrite E2. exists qs', e'. reflexivity.
+        -- inversion H; subst. exists [], 20. reflexivity.
+    + inversion H; subst. exists [], 0. reflexivity.
+Qed.
+
+(* ---------- BFE's header mutations do not touch the non-framing fields ---------- *)
+Lemma key_is_eq k kv : key_is k kv = true -> fst kv = k.
+Proof. unfold key_is. apply bytes_eqb_eq. Qed.
+Lemma plain_del k h : framing_key k = true -> plain_fields (del_key k h) = plain_fields h.
+Proof.
+  intro Hk. unfold plain_fields, del_key. induction h as [|kv h IH]; simpl; [reflexivity|].
+  destruct (key_is k kv) eqn:E; simpl.
+  - apply key_is_eq in E. rewrite E, Hk. simpl. exact IH.
+  - destruct (framing_key (fst kv)); simpl; rewrite IH; reflexivity.
+Qed.
+Lemma plain_app a b : plain_fields (a ++ b) = plain_fields a ++ plain_fields b.
+Proof. unfold plain_fields. apply filter_app. Qed.
+Lemma plain_dedupe f : forall seen h, plain_fields (dedupe_cl f seen h) = plain_fields h.
+Proof.
+  intros seen h. revert seen. induction h as [|kv h IH]; intro seen; simpl; [reflexivity|].
+  destruct (key_is s_cl kv) eqn:E.
+  - apply key_is_eq in E. destruct seen; unfold plain_fields in *; simpl; rewrite E; simpl; apply IH.
+  - unfold plain_fields in *. simpl. rewrite IH. reflexivity.
+Qed.
+Lemma plain_final h fr : plain_fields (bfe_final_fields h fr) = plain_fields h.
+Proof.
+  unfold bfe_final_fields.
+  set (h1 := del_key s_host h).
+  set (h2 := if has_key s_pragma h1 && bytes_eqb (get_first s_pragma h1) s_nocache && negb (has_key s_cc h1)
+             then h1 ++ [(s_cc, s_nocache)] else h1).
+  assert (E2 : plain_fields h2 = plain_fields h).
+  { unfold h2. destruct (has_key s_pragma h1 && bytes_eqb (get_first s_pragma h1) s_nocache && negb (has_key s_cc h1)).
+    - rewrite plain_app. simpl. rewrite app_nil_r. apply plain_del. reflexivity.
+    - apply plain_del. reflexivity. }
+  set (h3 := del_key s_te h2).
+  assert (E3 : plain_fields h3 = plain_fields h) by (unfold h3; rewrite plain_del; [exact E2|reflexivity]).
+  match goal with |- plain_fields (match get_first s_trailer ?h4 with _ => _ end) = _ =>
+    assert (E4 : plain_fields h4 = plain_fields h) end.
+  { destruct fr as [n|].
+    - set (h' := match get_all s_cl h3 with _ :: _ :: _ => dedupe_cl (trim4 (hd [] (get_all s_cl h3))) false h3 | _ => h3 end).
+      assert (E' : plain_fields h' = plain_fields h).
+      { unfold h'. destruct (get_all s_cl h3) as [|a [|b l]]; try exact E3. rewrite plain_dedupe. exact E3. }
+      destruct (cl_first (get_all s_cl h3)); [rewrite plain_del; [exact E'|reflexivity]|exact E'].
+    - rewrite plain_del; [exact E3|reflexivity]. }
+  match goal with |- plain_fields (match ?x with _ => _ end) = _ => destruct x end;
+    [exact E4|rewrite plain_del; [exact E4|reflexivity]].
+Qed.
+
+Lemma obs_matches_self total q : obs_matches total (bfe_obs total q) q = true.
+Proof.
+  unfold obs_matches, bfe_obs. simpl. rewrite !bytes_eqb_refl, plain_final, fields_eqb_refl, Z.eqb_refl. reflexivity.
+Qed.
+Lemma obs_prefix_self total qs qs' : obs_prefix total (map (bfe_obs total) qs) (qs ++ qs') = true.
+Proof. induction qs as [|q qs IH]; simpl; [reflexivity|]. rewrite obs_matches_self, IH. reflexivity. Qed.
+
+(* ---------- headline: outside the finding classes the model of BFE satisfies the property ---------- *)
+Theorem C24_partial_lemma : forall s,
+  stream_class (S (length s)) s = 0 -> prop_core s (fst (bfe_run s)) = true.
+Proof.
+  intros s Hc. unfold prop_core, bfe_run, parse_all.
+  destruct (parse_stream V_bfe (S (length s)) s) as [qs e] eqn:E.
+  destruct (stream_refine _ _ _ _ Hc E) as [qs' [e' E2]]. rewrite E2. cbn [fst].
+  destruct (e' =? 98).
+  - rewrite firstn_all2; [apply obs_prefix_self|]. rewrite map_length, app_length. lia.
+  - apply obs_prefix_self.
+Qed.
+
+(* the same through the wire functions the harness evaluates *)
+Lemma dec_enc_fields fs :
+  all_some (map dec_field (map (fun kv : bytes * bytes => VL [VB (fst kv); VB (snd kv)]) fs)) = Some fs.
+Proof. induction fs as [|[k v] fs IHf]; simpl; [reflexivity|]. rewrite IHf. reflexivity. Qed.
+Lemma dec_enc_obs o : dec_obs (enc_obs o) = Some o.
+Proof. unfold enc_obs, dec_obs, enc_fields. rewrite dec_enc_fields. destruct o; reflexivity. Qed.
+Lemma all_some_map_dec os : all_some (map dec_obs (map enc_obs os)) = Some os.
+Proof.
+  induction os as [|o os IH]; [reflexivity|].
+  cbn [map all_some]. rewrite dec_enc_obs, IH. reflexivity.
+Qed.
+Theorem C24_prop_of_model_lemma : forall s,
+  kf_C24 (VB s) = 0 -> prop_C24 (VB s) (run_C24 (VB s)) = true.
+Proof.
+  intros s Hk. simpl in Hk. pose proof (C24_partial_lemma s Hk) as H.
+  unfold run_C24, prop_C24. destruct (bfe_run s) as [os e] eqn:E. cbn [fst] in H. cbv beta iota. rewrite all_some_map_dec. exact H.
+Qed.
+
+(* ---------- refutations: each finding class, a concrete stream on which the model violates the property ---------- *)
+Definition of_str (l : list Z) : bytes := l.
+(* "GET / HTTP/1.1\r\nX-A : 1\r\n\r\n" *)
+Definition w_wscolon : bytes := [71;69;84;32;47;32;72;84;84;80;47;49;46;49;13;10;88;45;65;32;58;32;49;13;10;13;10].
+(* "GET / HTTP/1.1\r\nX(bad): 1\r\n\r\n" *)
+Definition w_nontoken : bytes := [71;69;84;32;47;32;72;84;84;80;47;49;46;49;13;10;88;40;98;97;100;41;58;32;49;13;10;13;10].
+(* "POST / HTTP/1.1\r\nTransfer-Encoding: identity, chunked\r\nContent-Length: 3\r\n\r\nabc" *)
+Definition w_te : bytes :=
+  [80;79;83;84;32;47;32;72;84;84;80;47;49;46;49;13;10] ++ s_te ++ [58;32] ++ s_identity ++ [44;32] ++ s_chunked ++ [13;10] ++
+  s_cl ++ [58;32;51;13;10;13;10;97;98;99].
+(* "GET / HTTP/1.1\r\n Host: a\r\n\r\n" *)
+Definition w_leadws : bytes := [71;69;84;32;47;32;72;84;84;80;47;49;46;49;13;10;32;72;111;115;116;58;32;97;13;10;13;10].
+(* "GET / HTTP/+1.1\r\n\r\n" *)
+Definition w_version : bytes := [71;69;84;32;47;32;72;84;84;80;47;43;49;46;49;13;10;13;10].
+(* "POST / HTTP/1.1\r\nContent-Length: \r\n\r\n" *)
+Definition w_emptycl : bytes := [80;79;83;84;32;47;32;72;84;84;80;47;49;46;49;13;10] ++ s_cl ++ [58;32;13;10;13;10].
+
+Definition refuted (s : bytes) (k : Z) : Prop :=
+  wf_bytes s = true /\ kf_C24 (VB s) = k /\ prop_C24 (VB s) (run_C24 (VB s)) = false.
+Lemma C24_refuted_lemma :
+  refuted w_wscolon 1 /\ refuted w_nontoken 2 /\ refuted w_te 3 /\ refuted w_leadws 4 /\
+  refuted w_version 5 /\ refuted w_emptycl 6.
+Proof. repeat split; vm_compute; reflexivity. Qed.
+
+(* non-vacuity: a pipelined stream (chunked POST with trailer, then GET) outside all classes, two requests accepted *)
+Definition w_pipeline : bytes :=
+  [80;79;83;84;32;47;97;32;72;84;84;80;47;49;46;49;13;10] ++ s_host ++ [58;32;104;13;10] ++
+  s_te ++ [58;32] ++ s_chunked ++ [13;10;13;10;51;13;10;97;98;99;13;10;48;13;10;88;45;84;58;32;49;13;10;13;10] ++
+  [71;69;84;32;47;98;32;72;84;84;80;47;49;46;48;13;10] ++ s_cl ++ [58;32;50;13;10] ++ s_cl ++ [58;32;50;32;13;10;13;10;120;121].
+Lemma C24_nonvacuous_lemma :
+  wf_bytes w_pipeline = true /\ kf_C24 (VB w_pipeline) = 0 /\
+  length (fst (bfe_run w_pipeline)) = 2%nat /\ snd (bfe_run w_pipeline) = 0 /\
+  map o_body (fst (bfe_run w_pipeline)) = [[97;98;99]; [120;121]].
+Proof. repeat split; vm_compute; reflexivity. Qed.
+
+(* the fixed defects: conflicting or signed Content-Length is rejected by the model of the fixed code *)
+Lemma C24_cl_conflict_rejected_lemma : forall h a b r,
+  has_key s_te h = false -> get_all s_cl h = a :: b :: r -> bytes_eqb (trim4 a) (trim4 b) = false ->
+  bfe_frame h = inl 8.
+Proof.
+  intros h a b r Ht Hc Hne. unfold bfe_frame, bfe_te. rewrite (has_key_get_all _ _ Ht), Hc. simpl. rewrite Hne. reflexivity.
+Qed.
